@@ -3,6 +3,6 @@
 cd /verif
 for p in C01 C02 C03 C04 C05 C06 C07 C08 C09 C10 C11 C12 C13 C14 C15 C16 C17 C18 C19 C20; do
   s=$(date +%s)
-  out=$(VERIF_SEED=1 VERIF_TIER=quick ./check $p quick 2>&1 | grep -a -E "^VIOLATION|^KNOWN-FINDING" | cut -c1-160 | tr '\n' '|')
-  echo "$p rc=${PIPESTATUS[0]} t=$(( $(date +%s) - s ))s :: $out"
+  VERIF_SEED=1 VERIF_TIER=quick ./check $p quick > /root/scratch/final_$p.out 2>&1; rc=$?
+  echo "$p rc=$rc t=$(( $(date +%s) - s ))s :: $(grep -a -E '^VIOLATION|^KNOWN-FINDING' /root/scratch/final_$p.out | cut -c1-120 | tr '\n' '|')"
 done
